@@ -978,3 +978,26 @@ def run(ctx):
     gen_loops(ctx, env)
     gen_single(ctx, env)
     gen_histories(ctx, env)
+
+
+def replay(ctx, data):
+    """re-run ONE recorded history (from an oracle replay file, or from the first broken correspondence)"""
+    from harness.lib.core import unjson
+    case = data.get('case')
+    if case is None:
+        for b in data.get('broken', []):
+            if 'case' in b:
+                case = b['case']
+                break
+    if case is None:
+        ctx.notes.append('replay: no recorded case in the file; full run')
+        return run(ctx)
+    case = unjson(case)
+    env = Env(ctx)
+    w = World(env)
+    w.pkts = [bytes(x) for x in case['pkts']]
+    w.store = {bytes.fromhex(k): tuple(v) for k, v in case['store'].items()}
+    ops = [tuple(tuple(x) if isinstance(x, list) else x for x in o) for o in case['ops']]
+    impl = check_history(ctx, env, w, ops, case['tag'])
+    ctx.case(('replay', case['tag']), nontrivial=True, sample={'tag': case['tag'], 'obs': [o[:3] for o in impl]})
+    print('replayed', case['tag'], [o[:3] for o in impl])
